@@ -60,7 +60,7 @@ Print Assumptions C02_lp_display.
 
 (* non-vacuity: three target partitions are all displayed, ids below 0x10000000 keep their zeros *)
 Example C02_example :
-  doc_lp {| se_comp_name := fun _ _ => None |} 79 {| h_ver := 1; h_sub := 0; h_comp := 8192 |}
+  doc_lp {| se_comp_name := fun _ _ => None; se_error_details := fun _ _ => [] |} 79 {| h_ver := 1; h_sub := 0; h_comp := 8192 |}
     {| l_part := 5; l_namelen := 0; l_count := 3; l_logid := 7; l_name := []; l_targets := [10; 11; 12]; l_pad := Some 0 |}
   = [(L "Section Version", num 1); (L "Sub-section type", num 0); (L "Created by", str (L "2000"));
      (L "Primary Partition ID", str (L "0x0005")); (L "Length of LP Name", str (L "0x00")); (L "Target LP Count", str (L "0x03"));
